@@ -263,6 +263,69 @@ pub fn run(tier: &str) -> i32 {
         }
     }
     let _ = race_bad;
+    // an acknowledgement racing the registration of the same operation for another node (the replication loop registers
+    // node by node while the first node may already answer): whichever order they take effect in, the operation is still
+    // pending afterwards, because the second node has not acknowledged
+    let reg_rounds = if thorough { 400_000 } else { 60_000 };
+    let mut reg_seen_both_orders = (0u64, 0u64);
+    {
+        let dbs = new_dbs();
+        let go = std::sync::atomic::AtomicU64::new(0);
+        let done = std::sync::atomic::AtomicU64::new(0);
+        let stop = std::sync::atomic::AtomicBool::new(false);
+        let (n0, n1) = (NODES[0].to_string(), NODES[1].to_string());
+        std::thread::scope(|sc| {
+            // the acknowledging session of node 0
+            sc.spawn(|| {
+                let mut seen = 0u64;
+                loop {
+                    let g = go.load(std::sync::atomic::Ordering::Acquire);
+                    if stop.load(std::sync::atomic::Ordering::Acquire) {
+                        break;
+                    }
+                    if g == seen {
+                        std::hint::spin_loop();
+                        continue;
+                    }
+                    seen = g;
+                    dbs.acknowledge_pending_opp(g, &n0);
+                    done.fetch_add(1, std::sync::atomic::Ordering::AcqRel);
+                }
+            });
+            for op in 1..=reg_rounds as u64 {
+                dbs.register_pending_opp(op, "m".into(), &n0);
+                let before = done.load(std::sync::atomic::Ordering::Acquire);
+                go.store(op, std::sync::atomic::Ordering::Release);
+                // a few spins so that the two calls overlap in varying ways
+                for _ in 0..(op % 7) * 3 {
+                    std::hint::spin_loop();
+                }
+                dbs.register_pending_opp(op, "m".into(), &n1);
+                while done.load(std::sync::atomic::Ordering::Acquire) == before {
+                    std::hint::spin_loop();
+                }
+                let copy = dbs.get_pending_opp_copy(op);
+                match &copy {
+                    None => {
+                        v.report(json!({"check": "pending", "problem": "operation-not-pending-although-a-targeted-node-has-not-acknowledged", "event": "ack-racing-registration"}), json!({"round": op, "registered_for": [n0, n1], "acknowledged_by": [n0]}));
+                        break;
+                    }
+                    Some(m) => {
+                        // which order took effect: registered for both (count 2) or re-registered after completion (count 1)
+                        if m.count_replication() == 2 {
+                            reg_seen_both_orders.0 += 1;
+                        } else {
+                            reg_seen_both_orders.1 += 1;
+                        }
+                    }
+                }
+                // clean up: the second node acknowledges
+                dbs.acknowledge_pending_opp(op, &n1);
+                dbs.acknowledge_pending_opp(op, &n0);
+            }
+            stop.store(true, std::sync::atomic::Ordering::Release);
+        });
+    }
     // observable through the client command too
     {
         let dbs = new_dbs();
@@ -276,7 +339,7 @@ pub fn run(tier: &str) -> i32 {
     ev.evaluations = evaluated.load(std::sync::atomic::Ordering::SeqCst) + n_random as u64 + race_rounds as u64 + cl.runs;
     ev.distinct_nontrivial = distinct_orders.load(std::sync::atomic::Ordering::SeqCst);
     ev.exhaustive = Some(true);
-    ev.rule = format!("all {} sequences of 1-{} events over register(op, node) / ack(op, node) for 2 operations x 2 targeted nodes + a never-targeted node + an unknown operation (exhaustive), {} random sequences of 5-16 events over 3 operations x 3 nodes + foreign/unknown acks, {} rounds of 4 threads racing to acknowledge 9 (op,node) pairs with duplicates, and {} simulated-cluster runs whose pending count must be 0 at quiescence; after every event the real pending set and counters are compared with a set-based model; distinct_nontrivial = exhaustively enumerated distinct event orders that contain an acknowledgement after a registration", total, depth, n_random, race_rounds, cl.runs);
+    ev.rule = format!("all {} sequences of 1-{} events over register(op, node) / ack(op, node) for 2 operations x 2 targeted nodes + a never-targeted node + an unknown operation (exhaustive), {} random sequences of 5-16 events over 3 operations x 3 nodes + foreign/unknown acks, {} rounds of 4 threads racing to acknowledge 9 (op,node) pairs with duplicates, {} rounds of an acknowledgement racing the registration of the same operation for a second node (ack took effect first in {}, registration first in {}), and {} simulated-cluster runs whose pending count must be 0 at quiescence; after every event the real pending set and counters are compared with a set-based model; distinct_nontrivial = exhaustively enumerated distinct event orders that contain an acknowledgement after a registration", total, depth, n_random, race_rounds, reg_rounds, reg_seen_both_orders.1, reg_seen_both_orders.0, cl.runs);
     ev.samples = samples.into_inner().unwrap();
     ev.set("event_classes_seen", json!(classes.lock().unwrap().iter().cloned().collect::<Vec<_>>()));
     ev.set("cluster_runs_with_pending_zero_at_quiescence", json!(cl.runs));
